@@ -8,6 +8,7 @@
   are handled by the order `PLe` on command lists (membership + id counts).
 -/
 import CachedProofs.Lemmas.Weights
+import CachedProofs.Lemmas.EvictId
 
 namespace Cached
 
@@ -785,6 +786,44 @@ theorem applyEvict_frame (s : State) (e : Evicted) :
   dsimp only
   split <;> exact ⟨rfl, rfl, rfl, rfl, rfl, rfl, rfl, rfl, rfl⟩
 
+/-- Un-charging an id while the store shrinks: to the store without the key the id was charged for, unless the
+    worker is dead (then any sub-store will do: the TTL sweeper keeps a key whose entry carries another id). -/
+theorem inv_remove_sub {s s' : State} (h : Inv s) {id : Nat} {wk : WKey} (hg : s.adm.kw.get? id = some wk)
+    (hadm : s'.adm = { s.adm with kw := s.adm.kw.del id, used := s.adm.used - wk.weight })
+    (hnd : AMap.NoDup s'.store) (hsub : ∀ k e, s'.store.get? k = some e → s.store.get? k = some e)
+    (hstore : s.worker ≠ .dead → s'.store = s.store.del wk.key)
+    (hnext : s'.nextId = s.nextId) (hcfg : s'.cfg = s.cfg)
+    (hworker : s'.worker = s.worker) (hle : PLe (pendingCmds s') (pendingCmds s)) : Inv s' := by
+  have hc := h.core
+  refine inv_iff.mpr ⟨⟨?_, ?_, ?_, ?_, ?_, ?_, ?_, ?_⟩, ?_⟩
+  · rw [hadm]; exact AMap.noDup_del hc.kwNoDup id
+  · exact hnd
+  · rw [hadm]; simp only; rw [sumW_del hc.kwNoDup hg, hc.sum]
+  · rw [hadm]; intro i x hx
+    simp only [AMap.get?_del] at hx
+    split at hx
+    · cases hx
+    · exact hc.positive i x hx
+  · rw [hadm, hcfg]; exact hc.maxFixed
+  · rw [hadm, hnext]; intro i x hx
+    simp only [AMap.get?_del] at hx
+    split at hx
+    · cases hx
+    · exact hc.kwBelow i x hx
+  · rw [hnext]; intro k e he
+    exact hc.storeBelow k e (hsub k e he)
+  · rw [hworker]
+    rcases hc.held with hd | hh
+    · exact Or.inl hd
+    · by_cases hd : s.worker = .dead
+      · exact Or.inl hd
+      · right; rw [hadm, hstore hd]; exact hh.remove hg
+  · rw [hnext, hadm]
+    refine (h.pend.transfer (Nat.le_refl _) ?_ ?_).of_le hle
+    · intro i _ hi; simp only [AMap.get?_del]; split <;> simp [hi]
+    · intro i _ hfr k e he
+      exact hfr k e (hsub k e he)
+
 /-- Un-charging an id and dropping the key it was charged for (the same key, unless the worker is dead). -/
 theorem inv_remove {s s' : State} (h : Inv s) {id : Nat} {wk : WKey} (hg : s.adm.kw.get? id = some wk)
     {k' : Nat} (hk' : s.worker ≠ .dead → k' = wk.key)
@@ -836,10 +875,20 @@ theorem inv_sweepEvict {s : State} (h : Inv s) (id : Nat) : Inv (sweepEvict s id
   | some wk =>
     rw [Adm.delete_some hg]
     dsimp only
-    obtain ⟨e1, e2, e3, e4, e5, e6, _⟩ := applyEvict_frame
+    obtain ⟨e1, e2, e3, e4, e5, e6, _⟩ := applyEvictId_frame
       { s with adm := { s.adm with kw := s.adm.kw.del id, used := s.adm.used - wk.weight } } (id, wk.key, wk.weight)
-    refine inv_remove h hg (k' := wk.key) (fun _ => rfl) e1 ?_ e2 e3 e4 ?_
-    · rw [applyEvict_store]
+    refine inv_remove_sub h hg e1 (applyEvictId_noDup _ _ h.storeNoDup)
+      (fun k e he => applyEvictId_get?_sub
+        { s with adm := { s.adm with kw := s.adm.kw.del id, used := s.adm.used - wk.weight } } (id, wk.key, wk.weight) he)
+      ?_ e2 e3 e4 ?_
+    · -- the worker lives: the key the id is charged for holds an entry with this very id
+      intro hd
+      rcases h.held with hd' | hh
+      · exact absurd hd' hd
+      · obtain ⟨en, hen, hid⟩ := hh.2 id wk hg
+        rw [applyEvictId_of_get
+          (s := { s with adm := { s.adm with kw := s.adm.kw.del id, used := s.adm.used - wk.weight } })
+          (e := (id, wk.key, wk.weight)) (en := en) hen hid, applyEvict_store]
     · simp only [pendingCmds, e5, e6]; exact PLe.refl _
 
 theorem sweepEvict_frame (s : State) (id : Nat) :
@@ -850,7 +899,7 @@ theorem sweepEvict_frame (s : State) (id : Nat) :
   | some wk =>
     rw [Adm.delete_some hg]
     dsimp only
-    obtain ⟨_, _, _, _, _, _, e7, e8, _⟩ := applyEvict_frame
+    obtain ⟨_, _, _, _, _, _, e7, e8, _⟩ := applyEvictId_frame
       { s with adm := { s.adm with kw := s.adm.kw.del id, used := s.adm.used - wk.weight } } (id, wk.key, wk.weight)
     exact ⟨e8, e7⟩
 
@@ -1586,7 +1635,7 @@ theorem noGrow_sweepEvict {s : State} (h : Inv s) (id : Nat) : NoGrow s (sweepEv
   | some wk =>
     rw [Adm.delete_some hg]
     dsimp only
-    obtain ⟨e1, e2, e3, _⟩ := applyEvict_frame
+    obtain ⟨e1, e2, e3, _⟩ := applyEvictId_frame
       { s with adm := { s.adm with kw := s.adm.kw.del id, used := s.adm.used - wk.weight } } (id, wk.key, wk.weight)
     have := h.positive id wk hg
     exact ⟨e3, by rw [e1], by rw [e1]; simp only; omega⟩
